@@ -237,9 +237,14 @@ pub struct BoxShape {
     pub width: DVec3,
 }
 
+/// exploration aid: VERIF_BOXSCALE=<x> forces the overall scale of every generated box
+fn forced_scale() -> Option<f64> {
+    std::env::var("VERIF_BOXSCALE").ok().and_then(|s| s.parse().ok())
+}
+
 pub fn random_box(r: &mut Rng) -> BoxShape {
     let asp = DVec3::from_array(*r.pick(&ASPECTS));
-    let scale = *r.pick(&SCALES);
+    let scale = forced_scale().unwrap_or(*r.pick(&SCALES));
     let width = asp * scale;
     let off = DVec3::from_array(*r.pick(&OFFSETS));
     BoxShape {
@@ -252,7 +257,7 @@ pub fn random_box(r: &mut Rng) -> BoxShape {
 /// comparison needs well-conditioned cells).
 pub fn mild_box(r: &mut Rng) -> BoxShape {
     let asp = DVec3::from_array(*r.pick(&ASPECTS[..3]));
-    let scale = *r.pick(&SCALES);
+    let scale = forced_scale().unwrap_or(*r.pick(&SCALES));
     let width = asp * scale;
     let off = DVec3::from_array(*r.pick(&OFFSETS[..3]));
     BoxShape {
@@ -621,6 +626,18 @@ pub fn gen_case(label: &str, tier: &str, seed: u64, k: u64, o: &GenOpts) -> Case
     }
     let n = *r.pick(o.sizes);
     let unit = unit_points(family, n, dim, &mut r);
+    // ---- extreme overall scales (one case in eight, drawn last so that the other seven are the cases of the earlier
+    // sessions): boxes of 1e-15 and 1e-30 (the absolute term of the float filter then sends EVERY clip decision to the exact
+    // predicate) in every dimensionality, and of 1e15 / 1e30 in 3D only - in 1D/2D the unit thickness of the unused axes is
+    // then below the rounding of the active coordinates (finding F12). Not for lattices with generators on the walls: a
+    // generator on a wall is its own mirror image, which the exact path cannot orient (finding F5; survey at 1e-15: 319 of
+    // 9 925 inputs panicked, all of them `blattice`, every other family clean at 1e-15, 1e-30 and - in 3D - 1e30).
+    if forced_scale().is_none() && r.below(8) == 0 && family != "blattice" {
+        let f = if dim == 3 { *r.pick(&[1e-15, 1e-30, 1e15, 1e30]) } else { *r.pick(&[1e-15, 1e-30]) };
+        let rel = b.anchor / b.width;
+        b.width = b.width / b.width.max_element() * f;
+        b.anchor = rel * b.width;
+    }
     finish(family, unit, b, dim, periodic, format!("{label}/{tier}/seed{seed}/case{k}"))
 }
 
@@ -777,10 +794,10 @@ pub fn wedge_case(label: &str, tier: &str, seed: u64, k: u64) -> Case {
 /// of half of its cells is a wrapped one), optionally with a few far background generators. The local geometry is
 /// ordinary; what is unusual is the ratio box width / spacing, at which quantities of the size W^2 and h^2 meet.
 ///
-/// `hostile = false` (the conditioned domain): spacings down to 1e-8 widths in 1D, 1e-6 in 2D, 1e-5 in 3D. Below that the
-/// unchanged tree panics with finding F5 (survey of 20 000 inputs: 3D 48 % at 1e-6 .. 1e-8, 2D 0.4 % at 1e-7 and 15 % at
-/// 1e-8, 1D never): the absolute term of the float filter sends ordinary vertices to the exact path. `hostile = true` draws
-/// 1e-8 .. 1e-4 in every dimensionality (for monitors that do not construct cells, e.g. the visit sequence of C17).
+/// `hostile = false` (the conditioned domain): always inside graded shells. `hostile = true`: with or without them; without,
+/// the unchanged tree panics with finding F5 (survey of 20 000 inputs: 3D 25 % at 1e-5, 48 % at 1e-6 .. 1e-8; 2D 0.4 % at 1e-7, 15 % at
+/// 1e-8; 1D never): the rim cells reach half a box width into empty space. Not used by any check; exploration only
+/// (`VERIF_ZOOM_HOSTILE=1 vmon Xzoom`).
 pub fn zoom_case(label: &str, tier: &str, seed: u64, k: u64, hostile: bool) -> Case {
     let mut g = Rng::stream(&format!("{label}zoom"), &[crate::rng::mix(tier, &[]), seed, k]);
     let dim = *g.pick(&[3usize, 3, 2, 2, 1]);
